@@ -65,6 +65,46 @@ fn getters(ts: &TokenStream) -> Value {
     Value::Object(out)
 }
 
+/// `boxed` argument (the last one) of every `::pest_typed::rule!(name, ..., true|false)` invocation of the emitted code
+fn boxed_flags(s: &str) -> Value {
+    let mut out = serde_json::Map::new();
+    let pat = "pest_typed :: rule ! (";
+    let mut from = 0;
+    while let Some(i) = s[from..].find(pat) {
+        let start = from + i + pat.len();
+        let bytes = s.as_bytes();
+        let (mut depth, mut j) = (1i32, start);
+        let mut in_str = false;
+        while j < bytes.len() && depth > 0 {
+            let c = bytes[j];
+            if in_str {
+                if c == b'\\' {
+                    j += 1;
+                } else if c == b'"' {
+                    in_str = false;
+                }
+            } else if c == b'"' {
+                in_str = true;
+            } else if c == b'(' {
+                depth += 1;
+            } else if c == b')' {
+                depth -= 1;
+            }
+            j += 1;
+        }
+        let body = &s[start..j.saturating_sub(1)];
+        let name = body.split(',').next().unwrap_or("").trim().trim_start_matches("r#").to_string();
+        let last = body.rsplit(',').next().unwrap_or("").trim();
+        out.insert(name, match last {
+            "true" => json!(true),
+            "false" => json!(false),
+            other => json!(other),
+        });
+        from = j;
+    }
+    Value::Object(out)
+}
+
 fn main() {
     std::panic::set_hook(Box::new(|_| {}));
     let stdin = std::io::stdin();
@@ -96,6 +136,9 @@ fn main() {
                 let mut m = json!({"panic": false, "hash": fnv(&s), "len": s.len()});
                 if v["want"].as_str() == Some("getters") {
                     m["getters"] = getters(&ts);
+                }
+                if v["want"].as_str() == Some("boxed") {
+                    m["boxed"] = boxed_flags(&s);
                 }
                 if v["want"].as_str() == Some("tokens") {
                     m["tokens"] = json!(s);
